@@ -91,6 +91,22 @@ TARGETS = [
     Target('fch_recv', Q, r'T recv\(uint64_t max_yield_turn, uint64_t max_yield_usec\)', index=1, count=2, rules=CHR, defers=dict(rettype='uint64_t'), marks=CH_RM),
     Target('ch_send', Q, r'void send\(const T& x\) (?=\{\s*SendBackoff<T>::template push_backoff)', index=0, count=2, rules=CHS, marks=CH_SM),
     Target('fch_send', Q, r'void send\(const T& x\) (?=\{\s*SendBackoff<T>::template push_backoff)', index=1, count=2, rules=CHS, marks=CH_SM),
+    Target('sb_push_backoff', Q, r'static void push_backoff\(const T& x, PushFn push_fn, uint64_t yield_turn, uint64_t yield_usec,\s*photon::semaphore& send_sem,\s*std::atomic<uint64_t>& send_waiters,\s*std::atomic<uint64_t>& send_pending\)',
+           scoped=dict(items=[(r'DEFER\((send_waiters\.fetch_sub\([^;]*\))\);', ';', r'\1;')], rettype='void'),
+           rules=[(r'push_fn\(x\)', 'CH_pop(this, &PB_X)', 1), (r'send_waiters\.fetch_add\((\w+), [^)]*\)', r'at_fetch_add(this, &this->idler, \1)', 1),
+                  (r'send_waiters\.fetch_sub\((\w+), [^)]*\)', r'at_fetch_sub(this, &this->idler, \1)', 1), (r'send_pending\.fetch_sub\((\w+), [^)]*\)', r'at_fetch_sub(this, &this->pending, \1)', 1),
+                  (r'Timeout yield_timeout\(([^)]*)\);', r'struct Timeout yield_timeout; Timeout_ctor_(&yield_timeout, \1);', 1),
+                  (r'yield_timeout\.expired\(\)', 'Timeout_expired_(&yield_timeout)', 1), (r'yield_timeout\.timeout\(([^)]*)\)', r'Timeout_timeout_(&yield_timeout, \1)', 1),
+                  (r'send_sem\.wait\(1, [^)]*\)', 'sem_wait_(this)', 1), (r'photon::thread_yield\(\);', 'thread_yield_();', 1)],
+           marks={'count': 1, 0: dict(name='PBK', frame=['this', 'PB_X', 'yt', 'yield_timeout', 'r', 'POPPED', 'POP_FAILED_SINCE', 'TOKEN_UNMIRRORED', 'N_WAIT', 'N_PEND_DEC', 'N_YIELD'],
+                  effects=dict(CH_RM[0]['effects'], CH_pop=['this', 'PB_X', 'POPPED', 'POP_FAILED_SINCE']), pure=['Timeout_expired_'])}),
+    Target('sb_notify_senders', Q, r'static void notify_senders\(photon::semaphore& send_sem,\s*std::atomic<uint64_t>& send_waiters,\s*std::atomic<uint64_t>& send_pending\)',
+           rules=[(r'std::atomic_thread_fence\(std::memory_order_seq_cst\);', 'fence_();', 1), (r'send_waiters\.load\([^)]*\)', 'sd_load(this, &this->idler)', 1),
+                  (r'send_pending\.load\([^)]*\)', 'sd_load(this, &this->pending)', 1),
+                  (r'send_pending\.compare_exchange_weak\((\w+), ([^,]+),\s*std::memory_order_acq_rel,\s*std::memory_order_acquire\)', r'sd_cas(this, &this->pending, &\1, \2)', 1),
+                  (r'send_sem\.signal\(1\);', 'sem_signal_(this, 1);', 1)],
+           marks={'count': 1, 0: dict(name='NS', frame=['this', 'sp', 'cur_waiters', 'fresh', 'IDLER_SEEN', 'PEND_SEEN', 'SAW_IDLER', 'SAW_PEND', 'N_CAS_OK', 'CAS_FROM', 'N_SIGNAL'],
+                  effects=dict(CH_SM[0]['effects'], sd_cas=['this', 'sp', 'PEND_SEEN', 'N_CAS_OK', 'CAS_FROM']), pure=[])}),
 ]
 UNITS = {'ring.c': 'ring.c.in', 'batch.c': 'batch.c.in', 'spsc.c': 'spsc.c.in', 'chan.c': 'chan.c.in'}
 PROOFS = [
@@ -106,6 +122,8 @@ PROOFS = [
     Proof('channel/send', 'chan.c', 'h_ch_send', kind='L', min_obligations=5),
     Proof('flexchannel/recv', 'chan.c', 'h_ch_recv', kind='L', defines=['FLEX'], min_obligations=5),
     Proof('flexchannel/send', 'chan.c', 'h_ch_send', kind='L', defines=['FLEX'], min_obligations=5),
+    Proof('channel/push_backoff', 'chan.c', 'h_push_backoff', kind='L', min_obligations=4),
+    Proof('channel/notify_senders', 'chan.c', 'h_notify_senders', kind='L', min_obligations=4),
     Proof('mpmc/pop', 'ring.c', 'h_mpmc_pop', kind='L', min_obligations=4, backend='cadical'),
 ]
 NATIVES = []
